@@ -511,6 +511,20 @@ impl<C: MlsConfig, E: ExternalMlsConfig + Clone> World<C, E> {
                 if reinit {
                     b = mls!(b.reinit(new_gid, mls_rs::ProtocolVersion::MLS_10, suite, ExtensionList::new()));
                 }
+                // insider: a resumption PSK proposal naming ANY group id / epoch (the builder's own
+                // method always names the group itself)
+                for rp in op["raw_psk"].as_array().cloned().unwrap_or_default() {
+                    use mls_rs_codec::MlsDecode;
+                    let gidb = hex::decode(rp["gid"].as_str().unwrap_or("")).unwrap_or_default();
+                    let mut bytes = vec![0u8, 4, 2, rp["usage"].as_u64().unwrap_or(1) as u8];
+                    bytes.push(gidb.len() as u8);
+                    bytes.extend_from_slice(&gidb);
+                    bytes.extend_from_slice(&rp["epoch"].as_u64().unwrap_or(0).to_be_bytes());
+                    bytes.push(32);
+                    bytes.extend_from_slice(&[0x5au8; 32]);
+                    let p = mls_rs::group::proposal::Proposal::mls_decode(&mut &*bytes).map_err(|e| format!("raw_psk:{e:?}"))?;
+                    b = b.raw_proposal(p);
+                }
                 b = b.authenticated_data(aad);
                 let (out, secrets) = if detached {
                     let (o, s) = mls!(b.build_detached());
